@@ -82,9 +82,19 @@ def scan_forbidden():
 
 def theorems_of(pid):
     """(fully qualified) names of the property theorems = every `theorem` in Props/<id>.lean"""
-    p = os.path.join(LEAN, "BppProofs", "Props", pid + ".lean")
-    if not os.path.exists(p):
-        return []
+    import glob as _g
+    names = []
+    for p in sorted(_g.glob(os.path.join(LEAN, "BppProofs", "Props", pid + "*.lean"))):
+        names += theorems_in(p)
+    return names
+
+
+def prop_modules(pid):
+    import glob as _g
+    return ["BppProofs.Props." + os.path.basename(p)[:-5] for p in sorted(_g.glob(os.path.join(LEAN, "BppProofs", "Props", pid + "*.lean")))]
+
+
+def theorems_in(p):
     txt = strip_comments(open(p).read())
     ns, names = [], []
     for line in txt.split("\n"):
@@ -126,7 +136,7 @@ def lean_side(pid, cfg, tier, scratch):
     res["driver_ok"] = rc == 0
     if rc != 0:
         res["problems"].append("model/driver no longer builds:\n" + out[-3000:])
-    targets = cfg.get("lean_targets", ["BppProofs.Props." + pid])
+    targets = cfg.get("lean_targets", prop_modules(pid))
     rc, out = lake(["build"] + targets)
     res["build_ok"] = rc == 0
     thms = theorems_of(pid)
@@ -525,7 +535,7 @@ def main():
         cov = {
             "obligations": lres["obligations"], "discharged": lres["discharged"],
             "checker_cmd": "cd lean && lake build %s && lake env lean <generated #print axioms file>%s" % (
-                " ".join(cfg.get("lean_targets", ["BppProofs.Props." + pid])), " && lake env leanchecker <module>" if tier == "thorough" else ""),
+                " ".join(cfg.get("lean_targets", prop_modules(pid))), " && lake env leanchecker <module>" if tier == "thorough" else ""),
             "trusted_base": cfg.get("trusted_base", []) + ["Lean 4.33 kernel", "axioms: " + ", ".join(sorted({a for v in lres["axioms"].values() for a in v}) or ["none"])],
             "theorems": thms,
             "evaluations": len(cases), "distinct_nontrivial": len(nontrivial),
